@@ -105,11 +105,18 @@ def generate(rng, tier) -> dict:
         start = rng.randint(0, N - 4)
         nsamps = rng.randint(4, N - start)
     ns = N - start if nsamps is None else nsamps
+    if nbits == 32 and rng.random() < 0.3:
+        # float data with inf / NaN / -0.0 in it (a saturated or corrupted channel is what one wants to flag);
+        # the statistics are then NaN in places, so the user mask carries the scenario and the mask value is explicit
+        spec["mode"] = "bits"
     top = (1 << nbits) - 1 if nbits < 32 else 100
     sc = {"kind": "clean", "files": spec, "start": start, "nsamps": nsamps, "method": rng.choice(["mad", "iqrm"]),
           "threshold": rng.choice([3.0, 2.0, 1.5]), "ranges": gen_ranges(rng, nchans, band), "fn": rng.choice([None, None, "every3", "first", "last", "none"]),
           "mask_value": rng.choice([None, 0, top, rng.randint(0, top)] + ([-1.5, 2.75, -100.0] if nbits == 32 else [])),
           "ops": [{"gulp": max(1, rng.choice([1, 2, 3, rng.randint(1, ns), ns, ns + 2, max(1, ns // 3)]))} for _ in range(2)], "faults": []}
+    if spec["mode"] == "bits":
+        sc["mask_value"] = rng.choice([0, 7.5, -1.5])
+        sc["ranges"] = sc["ranges"] or gen_ranges(rng, nchans, band) or [[band[0] - 1, band[0] + 1]]
     if rng.random() < 0.2:
         sc["faults"].append({"kind": rng.choice(["R1", "R2", "W3"]), "op": rng.randrange(2), "call": rng.choice([0, 1, 2, 3, 5]), "arg": rng.randint(0, 20)})
     return sc
@@ -312,6 +319,8 @@ def exec_clean(sc, ctx) -> None:
     X = fs.samples[start : start + ns]
     if nbits < 8:
         ctx.probe("sub-byte")
+    if spec.get("mode") == "bits":
+        ctx.probe("clean:non-finite-samples")
     ctx.sig += ["clean", f"nbits{nbits}", sc["method"], str(sc["fn"])]
     thr = sc["threshold"]
     crcs = []
